@@ -145,9 +145,9 @@ Proof.
         -- reflexivity.
       * destruct (_ && _); inversion Hcase; subst; cbn [taken]; [|reflexivity].
         try rewrite <- H2. symmetry. apply firstn_skipn.
-      * destruct (Nat.leb _ _); inversion Hcase; subst; cbn [taken]; congruence.
+      * destruct (Nat.leb _ _); inversion Hcase; subst; cbn [taken app]; congruence.
       * destruct (lim_exceeded _ _); inversion Hcase; subst; cbn [taken]; [reflexivity|].
-        rewrite <- H2. rewrite app_nil_r. reflexivity.
+        try rewrite <- H2. rewrite app_nil_r. reflexivity.
       * destruct Hcase as (dd & -> & Hok & Hr). cbn [taken]. rewrite Hr.
         unfold spec_recv_ok in Hok. apply andb_true_iff in Hok as [Hok _].
         apply andb_true_iff in Hok as [Hok _]. apply is_prefix_split in Hok.
@@ -175,3 +175,81 @@ Proof.
     assert (Ho : o_out (observe len o out s1) = out) by (unfold observe; destruct (is_send_op o); reflexivity).
     rewrite Ho, Hc. fold (remaining s1). rewrite E2, <- app_assoc. reflexivity.
 Qed.
+
+(* ---- send side over a whole history ------------------------------------------------------------ *)
+Lemma step_nonsend_same s o out s' :
+  is_send_op o = false -> step s o = (out, s') -> wire s' = wire s /\ sbuf s' = sbuf s.
+Proof.
+  intros Hso H. destruct o; try discriminate; cbn [step] in H.
+  + unfold recv_until in H. destruct (ru_loop _ _ _ _ _ _ _) as [[? ?|? ?] ?]; inversion H; auto.
+  + unfold recv_size, recv_size_lim in H.
+    destruct (match rbuf s with [] => _ | _ => _ end) as [[?|] ?]; [|inversion H; auto].
+    destruct (rs_loop _ _ _ _ _ _ _) as [[? ? ?|? ?] ?]; inversion H; auto.
+  + unfold peek in H. destruct (Nat.leb _ _); [inversion H; auto|].
+    unfold recv_size, recv_size_lim in H.
+    destruct (match rbuf s with [] => _ | _ => _ end) as [[?|] ?]; [|inversion H; auto].
+    destruct (rs_loop _ _ _ _ _ _ _) as [[? ? ?|? ?] ?]; inversion H; auto.
+  + unfold recv_close, recv_size_lim in H.
+    destruct (match rbuf s with [] => _ | _ => _ end) as [[?|] ?]; [|inversion H; auto].
+    destruct (rs_loop _ _ _ _ _ _ _) as [[? ? ?|[] ?] ?]; inversion H; auto.
+  + unfold recv in H. destruct (Nat.leb _ _); [inversion H; auto|].
+    destruct (rbuf s); [|inversion H; auto].
+    destruct (sock_recv _ _) as [[?|] ?]; [|inversion H; auto].
+    destruct (Nat.ltb _ _); inversion H; auto.
+  + inversion H. auto.
+Qed.
+
+(* every byte passed to send/sendall/buffer is, in order and exactly once,
+   either on the wire or still in the send buffer - whatever the partial
+   sends and time-outs, and whether or not calls raised *)
+Theorem send_conservation len : forall ops s obs sf,
+  run len s ops = (obs, sf) ->
+  wire sf ++ concat (sbuf sf) = (wire s ++ concat (sbuf s)) ++ concat (map op_data ops).
+Proof.
+  induction ops as [|o r IH]; intros s obs sf H; cbn [run] in H.
+  - inversion H; subst. cbn. rewrite app_nil_r. reflexivity.
+  - destruct (step s o) as [out s1] eqn:E1. destruct (run len s1 r) as [obs' s2] eqn:E2.
+    inversion H; subst; clear H. apply IH in E2. rewrite E2. cbn [map concat].
+    rewrite app_assoc. f_equal.
+    destruct (is_send_op o) eqn:Hso.
+    + apply step_send_ok in E1; auto. destruct E1 as (_ & sent & _ & Hc & _). exact Hc.
+    + apply step_nonsend_same in E1 as [-> ->]; auto.
+      destruct o; try discriminate; cbn; rewrite app_nil_r; reflexivity.
+Qed.
+
+(* a successful send/flush leaves nothing behind: all accepted bytes are on
+   the wire *)
+Theorem send_success_flushes s o out s' :
+  step s o = (out, s') ->
+  match o, out with
+  | Send _, ONat _ | Flush, ONone => concat (sbuf s') = [] /\ wire s' = (wire s ++ concat (sbuf s)) ++ op_data o
+  | _, _ => True
+  end.
+Proof.
+  intro H. destruct o; try exact I; destruct out; try exact I;
+    apply step_send_ok in H; auto; destruct H as (_ & sent & _ & Hc & Hcase).
+  - destruct Hcase as (Hsb & _). rewrite Hsb, app_nil_r in Hc. auto.
+  - destruct Hcase as (Hsb & _). rewrite Hsb, app_nil_r in Hc. auto.
+Qed.
+
+(* ---- statements in the form used by Props/C12.v ------------------------------------------------ *)
+Lemma recv_prefix s k out s' :
+  wf_net (nt s) = true -> 1 <= recvsize s -> recv s k = (out, s') ->
+  (out = OExn Timeout /\ remaining s' = remaining s) \/
+  (exists d, out = OBytes d /\ spec_recv_ok (remaining s) k d = true /\
+             remaining s' = skipn (length d) (remaining s)).
+Proof.
+  intros W R H. destruct (recv_ok s k out s' W R H) as (_ & _ & _ & [(A & B & _)|(_ & _ & C)]);
+    [left; auto|right; exact C].
+Qed.
+
+Lemma conservation_init mx rs n sc ops obs sf :
+  wf_net n = true -> 1 <= rs ->
+  run (length (flat n)) (bs_init mx rs n sc) ops = (obs, sf) ->
+  flat n = concat (map (fun x => taken (fst x) (o_out (snd x))) obs) ++ rbuf sf ++ flat (nt sf).
+Proof. intros W R H. exact (conservation _ ops (bs_init mx rs n sc) obs sf W R H). Qed.
+
+Lemma send_conservation_init mx rs n sc ops obs sf :
+  run (length (flat n)) (bs_init mx rs n sc) ops = (obs, sf) ->
+  wire sf ++ concat (sbuf sf) = concat (map op_data ops).
+Proof. intro H. exact (send_conservation _ ops (bs_init mx rs n sc) obs sf H). Qed.
